@@ -215,7 +215,7 @@ def top(prop, replay=None, **kw):
              replay=replay, **kw)
 
 # ===================== jwt_builder_generate (top level) =====================
-GEN_CLAUSE_PROPS = [["C14", 2], ["C03", 6], ["C10", 6], ["C13", 2], ["C17", 1]]
+GEN_CLAUSE_PROPS = [["C14", 2], ["C03", 6], ["C10", 6], ["C13", 3], ["C17", 1]]
 def gen_top(replay={"driver": "replay/r_gen.c"}):
     c = "contract_all_jwt_builder_generate"
     return U("TOP.jwt_builder_generate", "jwt_builder_generate (libjwt/jwt-common.c as jwt-builder)", common_tu("BUILDER"),
@@ -841,6 +841,11 @@ share("C18", ["TOP.jwt_checker_verify", "TOP.jwt_builder_generate", "C01.all.jwt
 share("C10", ["C15.jwt_claim_set", "C15.jwt_header_set", "C15.__setter"])
 share("C17", ["C15.jwt_claim_set", "C15.jwt_header_set", "C10.jwt_head_setup", "C10.jwt_encode_str", "C17.jwt_malloc", "C17.__jwt_freemem", "C17.jwt_set_alloc"])
 share("C04", ["C15.jwt_claim_get"])
+share("C14", ["C15.__getter", "C15.__setter", "C15.__setter_json", "C15.__deleter"])
+share("C06", ["C17.jwt_new", "C17.jwt_free"])
+share("C13", ["C17.jwt_new", "C17.jwt_free"])
+share("C07", ["C16.jwks_new", "C16.jwks_item_add", "C08.openssl_process_rsa.complete", "C08.openssl_process_ec.complete", "C08.openssl_process_eddsa.complete"])
+share("C17", ["C16.__item_free", "C16.jwks_new"])
 share("C09", ["C08.jwk_process_values"])
 share("C07", ["C08.jwk_process_values", "C08.jwk_key_op_j", "C08.process_octet", "C11.base64_decode", "C11.jwt_base64uri_decode", "C11.finite.reject"])
 share("C08", ["C11.base64_decode", "C11.jwt_base64uri_decode"])
